@@ -153,11 +153,19 @@ def run_property(prop, tier='quick', seed=0):
     # branch coverage of the symbolic execution: a branch of a function under
     # contract that no path takes means a pruned (possibly vacuous) path
     dead_ok = set(getattr(mod, 'DEAD_BRANCHES', ()))
+    # a function that left the supported subset is reported through its
+    # `in_subset` obligation (a VIOLATION), not through the vacuity guard
+    left_subset = set()
+    for o in obs:
+        if o.meta.get('kind') == 'in_subset':
+            left_subset.add(o.name.split('/in_subset')[0].split('/', 1)[1]
+                            .split('[')[0])
     unc = sorted(x for x in info.get('branch_all', set())
                  - info.get('branch_cov', set())
                  if not any(x[0].endswith('.' + d[0]) and x[1] == d[1]
                             and x[2] == d[2] for d in dead_ok)
-                 and x[0] in getattr(mod, 'BRANCH_COVERED_FUNCTIONS', ()))
+                 and x[0] in getattr(mod, 'BRANCH_COVERED_FUNCTIONS', ())
+                 and not any(x[0].endswith(ls) for ls in left_subset))
     info['uncovered_branches'] = ['{}: `{}` -> {}'.format(*x) for x in unc]
     info['branch_cov'] = len(info.get('branch_cov', ()))
     info['branch_all'] = len(info.get('branch_all', ()))
@@ -169,7 +177,7 @@ def run_property(prop, tier='quick', seed=0):
                        error='uncovered branches')
         return 3
     floor = getattr(mod, 'OBLIGATION_FLOOR', 1)
-    if len(obs) < floor:
+    if len(obs) < floor and not left_subset:
         print('CHECKER-ERROR property={} only {} obligations generated '
               '(floor {}): vacuity guard'.format(prop, len(obs), floor))
         write_evidence(prop, tier, seed, cx, [], [], info, time.time() - t0,
